@@ -58,7 +58,32 @@ def run(chk, repo):
     sends(chk, repo)
 
 
+def devices_updated(chk, repo, rule="R30.1"):
+    """every response that is handed to a slow sync group reaches every
+    device: each path through SyncGroup.update_devices passes the loop that
+    calls update() on the devices (a cycle in which the devices are not
+    run is a cycle in which no timeout is noticed and no output follows
+    its input)"""
+    sym = C + "SyncGroup.update_devices"
+    f = repo.func(sym)
+    cfg = CFG(f)
+    dl = [n for n in cfg.nodes if n.kind == "iter" and match(
+        "self.devices", n.stmt.iter) is not None and find(
+            f"{unparse(n.stmt.target)}.update()", n.stmt)]
+    ok = bool(dl) and cfg.must_pass(cfg.entry, lambda n: n in dl,
+                                    targets=[cfg.exit])
+    path = None
+    if dl and not ok:
+        w = cfg.witness_path(cfg.entry, lambda n: n in dl,
+                             targets=[cfg.exit])
+        path = cfg.describe_path(w) if w else None
+    chk.ob(rule, sym, "the devices are updated on every response", ok,
+           dl[0].stmt if dl else f, "for dev in self.devices: dev.update() "
+           "lies on every path to the return", path)
+
+
 def cycle(chk, repo):
+    devices_updated(chk, repo)
     sym = C + "SyncGroup.update_devices"
     f = repo.func(sym)
     chk.analysed(sym)
